@@ -8,6 +8,7 @@ import (
 	"errors"
 	"io"
 	"net"
+	"syscall"
 	"time"
 )
 
@@ -168,3 +169,52 @@ func Frame(payload []byte) []byte {
 	b := []byte{byte(n >> 56), byte(n >> 48), byte(n >> 40), byte(n >> 32), byte(n >> 24), byte(n >> 16), byte(n >> 8), byte(n)}
 	return append(b, payload...)
 }
+
+// ---- unix-domain flavour: net.ListenUnix / DialUnix return concrete
+// *net.UnixListener / *net.UnixConn; zero values serve as handles and the VM
+// redirects their methods to the functions below.
+
+var UnixListeners = map[*net.UnixListener]*Listener{}
+var UnixConns = map[*net.UnixConn]*Conn{}
+
+func UnixListen(network string, addr *net.UnixAddr) (*net.UnixListener, error) {
+	l, err := ListenHook(network, addr.Name)
+	if err == ErrInUse {
+		return nil, syscall.EADDRINUSE // what the kernel reports for a bound unix socket path
+	}
+	if err != nil {
+		return nil, err
+	}
+	h := &net.UnixListener{}
+	UnixListeners[h] = l.(*Listener)
+	return h, nil
+}
+
+func UnixAccept(h *net.UnixListener) (*net.UnixConn, error) {
+	c, err := UnixListeners[h].Accept()
+	if err != nil {
+		return nil, err
+	}
+	uc := &net.UnixConn{}
+	UnixConns[uc] = c.(*Conn)
+	return uc, nil
+}
+
+func UnixListenerClose(h *net.UnixListener) error { return UnixListeners[h].Close() }
+func UnixListenerAddr(h *net.UnixListener) net.Addr { return UnixListeners[h].Addr() }
+
+func UnixDial(network string, laddr, raddr *net.UnixAddr) (*net.UnixConn, error) {
+	c, err := DialHook(network, raddr.Name)
+	if err != nil {
+		return nil, err
+	}
+	uc := &net.UnixConn{}
+	UnixConns[uc] = c.(*Conn)
+	return uc, nil
+}
+
+func UnixConnRead(c *net.UnixConn, b []byte) (int, error)  { return UnixConns[c].Read(b) }
+func UnixConnWrite(c *net.UnixConn, b []byte) (int, error) { return UnixConns[c].Write(b) }
+func UnixConnClose(c *net.UnixConn) error                  { return UnixConns[c].Close() }
+func UnixConnLocalAddr(c *net.UnixConn) net.Addr           { return UnixConns[c].LocalAddr() }
+func UnixConnRemoteAddr(c *net.UnixConn) net.Addr          { return UnixConns[c].RemoteAddr() }
